@@ -11,6 +11,42 @@ use noodles_sam::{
 fn main() -> io::Result<()> {
     let header = sam::Header::default();
     let mut failures = 0;
+    // the same data through the other block codecs (rANS 4x8 order 0/1, adaptive arithmetic coder order 0/1)
+    for (label, encoder) in [
+        ("rans4x8 o0", Encoder::Rans4x8(cram::codecs::rans_4x8::Order::Zero)),
+        ("rans4x8 o1", Encoder::Rans4x8(cram::codecs::rans_4x8::Order::One)),
+        ("aac o0", Encoder::AdaptiveArithmeticCoding(cram::codecs::aac::Flags::empty())),
+        ("aac o1", Encoder::AdaptiveArithmeticCoding(cram::codecs::aac::Flags::ORDER)),
+        ("fqzcomp", Encoder::Fqzcomp),
+    ] {
+        for n in [1usize, 10, 300, 3000] {
+            let map = BlockContentEncoderMap::builder()
+                .set_data_series_encoder(DataSeries::QualityScores, Some(encoder.clone()))
+                .build();
+            let result = std::panic::catch_unwind(|| -> io::Result<usize> {
+                let mut writer = cram::io::writer::Builder::default().set_block_content_encoder_map(map).build_from_writer(Vec::new());
+                writer.write_header(&header)?;
+                for i in 0..n {
+                    let seq: Vec<u8> = (0..50).map(|j| b"ACGT"[(i * 7 + j * 3) % 4]).collect();
+                    let qual: Vec<u8> = (0..50).map(|j| ((i * 31 + j * j * 17 + (i >> 3)) % 42) as u8).collect();
+                    let record = RecordBuf::builder().set_name(format!("r{i}")).set_flags(Flags::UNMAPPED)
+                        .set_sequence(Sequence::from(seq)).set_quality_scores(QualityScores::from(qual)).build();
+                    writer.write_alignment_record(&header, &record)?;
+                }
+                writer.try_finish(&header)?;
+                let data = writer.get_ref().clone();
+                let mut reader = cram::io::Reader::new(&data[..]);
+                let h = reader.read_header()?;
+                let mut m = 0;
+                for r in reader.records(&h) { r?; m += 1; }
+                Ok(m)
+            });
+            match result {
+                Ok(Ok(m)) if m == n => {}
+                other => { println!("{label}, {n} records: {other:?}"); failures += 1; }
+            }
+        }
+    }
     for (label, flags) in [
         ("order 0", rans_nx16::Flags::empty()),
         ("order 1", rans_nx16::Flags::ORDER),
